@@ -30,10 +30,16 @@ package retry
 //@   assumed
 //@   pure
 
+// rq_head: the queue entry the repair is working on (ghost assignment in getHead)
+//@ ghost rq_head Ref
+// the event the repair hands to the sequencer describes the queued operation: same key, value,
+// previous revision and verb, valid exactly when the repair write succeeded -- an invalid one whose
+// outcome is again unknown is queued anew and repaired from this very payload
 //@ func dispatcher(ctx, key, val, revision, preRevision, valid, eventType, err)
 //@   assumed
 //@   requires [range] revision < 0x8000000000000000
 //@   requires [after-batch] !batch_open
+//@   requires@C09 [repair-event-carries-the-queued-operation] rq_head != nil && asref(rq_head, "*retry.eventNode").event != nil && key == asref(rq_head, "*retry.eventNode").event.Key && val == asref(rq_head, "*retry.eventNode").event.Value && preRevision == asref(rq_head, "*retry.eventNode").event.PrevRevision && eventType == asref(rq_head, "*retry.eventNode").event.ResourceVerb && valid == (err == nil)
 //@   modifies ghost.pending []atomic.Value
 //@   ensures [reported] revision != 0 && revision == old(pending) ==> pending == 0
 //@   ensures [zero-ignored] revision == 0 ==> pending == old(pending)
@@ -67,7 +73,8 @@ package retry
 //@   modifies inferred:(*eventQueue).size
 //@ func (*eventQueue).getHead() (result)
 //@   props C19 C09
-//@   modifies inferred:(*eventQueue).getHead
+//@   modifies inferred:(*eventQueue).getHead ghost.rq_head
+//@   assume_ensures [ghost-assignment] rq_head == result
 // push appends one fresh node carrying the event; no waiting entry is changed or dropped (every
 // unresolved revision stays queued until its own check), so the least unresolved revision reported
 // to Compact can only be lowered by a push of a smaller one
